@@ -318,7 +318,12 @@ def history_stage(chk, out):
         n += 1
         p = h["arg"]
         schema = opsreplay.realize(b["schemas"][0], opsreplay.Ids())
-        before = c14.names_from_introspection(schema)
+        try:
+            before = c14.names_from_introspection(schema)
+            c14.defaults_probe(schema)         # (fills whatever the library memoises about defaults before the transform)
+        except Exception as e:
+            out.setdefault("intro/history/raises/%s/before" % type(e).__name__, ["introspection of the base schema raises", {"error": repr(e)[:300]}])
+            continue
         exp0 = c14.visible_names(opsreplay.normalize(b["schemas"][0]), False)
         if before != exp0:
             out.setdefault("intro/history/before", ["introspection before the transform differs", {"missing": sorted(exp0 - before)[:5], "extra": sorted(before - exp0)[:5]}])
@@ -340,6 +345,9 @@ def history_stage(chk, out):
         try:
             Vis().on_schema(schema)
             after = c14.names_from_introspection(schema)
+            bad = c14.defaults_probe(schema)
+            if bad:
+                out.setdefault("intro/history/default-not-a-value-of-its-type/hide:%s" % p["p"], ["after an in-place transform a reported defaultValue is not a value of the argument's (new) type", {"pred": p, "defaults": bad[:3]}])
         except Exception as e:
             out.setdefault("intro/history/raises/%s/hide:%s" % (type(e).__name__, p["p"]), ["in-place transform + introspection raises", {"pred": p, "error": repr(e)[:300]}])
             continue
